@@ -485,7 +485,11 @@ def parse_unpack_pattern(lhs: ast.Tuple | ast.List) -> UnpackPattern:
         else None
     )
     right = lhs.elts[len(left) + 1 :]
-    assert isinstance(starred, ast.Name | None), "Python grammar"
+    # The grammar also allows attribute and subscript targets behind the star
+    if starred is not None and not isinstance(starred, ast.Name):
+        raise GuppyError(
+            UnsupportedError(starred, "Starred assignment targets other than names")
+        )
     return UnpackPattern(left, starred, right)
 
 
